@@ -1,15 +1,18 @@
 import json, os, shutil
 
 SPEC = {
-    "lean_modules": ["SemaModel.C13.Props", "SemaModel.C13.Tie", "SemaModel.C13.Pins"],
+    "lean_modules": ["SemaModel.C13.Props", "SemaModel.C13.Tie", "SemaModel.C13.SitesProps", "SemaModel.C13.Pins"],
     "lean_dirs": ["SemaModel/C13"],
     "harness": "c13",
-    "harness_args": {"quick": ["-n", 600, "-sharekeys", 20000], "thorough": ["-n", 6000, "-sharekeys", 100000]},
+    "harness_args": {"quick": ["-n", 600, "-sharekeys", 20000, "-syncscen", 24, "-shsyncscen", 8, "-reqscen", 80],
+                     "thorough": ["-n", 6000, "-sharekeys", 100000, "-syncscen", 150, "-shsyncscen", 40, "-reqscen", 500]},
+    "timeout": {"quick": 600, "thorough": 2400},
     "level": "proof",
     "tie": "T1: cluster/hashing.go RendezvousHash is translated to SemaModel/Generated/Rendezvous.lean on every run (tools/go2lean, extended mode: the local struct ServerScore, the scoring loop, the comparator cmp.Compare(a.Score, b.Score), the topK clamp, the result loop; xxhash.Sum64String and slices.SortFunc stay abstract parameters); C13_tie_spec proves that the generated definition meets IsRendezvous for every hash, every sort function returning an ordered permutation and every concatenation-preserving reading of strings as bytes, C13_tie that under NoTies it EQUALS the model's rendezvous, C13_tie_owner that RendezvousHash(key, servers, 1)[0] is the model's owner. "
            "T3: cluster.RendezvousHash and the hand-written Lean model (h := XXH64 written in Lean) are run on the same op lines "
            "(boundary/random strings for the hash; random keys x server lists of size 0..46 with duplicates, permutations, one server added/removed; k = 0..n+1); "
            "the XXH64 model is compared with cespare/xxhash Sum64String on every length 0..100 and random strings; "
+           "T3 (call sites): real in-process cluster nodes (cluster.NewNode + Serve on loopback addresses of a private network namespace, every node configured with its own permutation of the server list) are driven through the code that routes, one cluster per op line: `sync` - node database records `user/collection` of adversarially chosen user ids (ids that are prefixes / extensions of each other by bytes sorting before and after the delimiter `/`, case variants, ids glued from another id + collection id, non-ASCII and long ids) are planted on one node which runs the real Sync(); `shsync` - the same for shard directories `user/collection/shard`; answer = the node that holds each key afterwards; `req` / `shreq` - CreateCollection, GetCollection, ListCollections, DeleteCollection, InsertPoints (new shard), GetShardsInfo, InsertPoints, SearchPoints, UpdatePoints, DeletePoints issued at one node while a chosen subset of the servers answers (in about 70 % of the lines the first ranked server does not, the second ranked mostly does); answer = the node that SERVED the request (node database that changed, planted record that came back, disk on which the shard was opened) or `fail`. The model answers the same lines with afterSync / shardDest / route of SemaModel/C13/Sites.lean (owner of the routed part of the key over the set of names); the oracle compares with the real RendezvousHash. "
            "T2: tools/facts_c13 regenerates the hashed concatenation (key+server), the comparator direction, the clamp and every call site "
            "(RendezvousHash(<user|shard id>, c.Servers, 1)[0]) of package cluster; SemaModel/C13/Lemmas.lean pins them",
     "required_theorems": [
@@ -19,6 +22,13 @@ SPEC = {
         "Sema.C13.C13_add_cons", "Sema.C13.C13_add", "Sema.C13.C13_add_topk",
         "Sema.C13.C13_remove", "Sema.C13.C13_remove_all",
         "Sema.C13.C13_length", "Sema.C13.C13_clamp", "Sema.C13.C13_sub", "Sema.C13.C13_prefix",
+        # the call sites that route (SemaModel/C13/SitesProps.lean)
+        "Sema.C13.C13_userOf_recKey", "Sema.C13.C13_shardOf_path",
+        "Sema.C13.C13_sync_plan_iff", "Sema.C13.C13_sync_dest_is_owner", "Sema.C13.C13_after_sync",
+        "Sema.C13.C13_sync_agrees_with_request", "Sema.C13.C13_sync_cached_delim",
+        "Sema.C13.C13_route_owner", "Sema.C13.C13_route_indep", "Sema.C13.C13_route_up", "Sema.C13.C13_route_down",
+        "Sema.C13.C13_failover_one", "Sema.C13.C13_failover_depends",
+        "Sema.C13.C13_sync_dest_set", "Sema.C13.C13_shard_dest_set", "Sema.C13.C13_route_set",
         # tie theorems (SemaModel/C13/Tie.lean): the model functions = the definition generated from cluster/hashing.go
         "Sema.C13.C13_tie_shape", "Sema.C13.C13_tie_spec", "Sema.C13.C13_tie", "Sema.C13.C13_tie_owner",
     ],
@@ -29,6 +39,8 @@ SPEC = {
         "slices.SortFunc returns a permutation of its input that is sorted w.r.t. the comparator (pdqsort, unstable): modelled by IsRendezvous; the stable insertion sort of the driver coincides with it under NoTies (C13_deterministic)",
         "a negative topK (Go: panic in make) is outside the model; tools/facts_c13 pins that every call site passes the constant 1",
         "tools/facts_c13 (go/ast): the regenerated call-site table and shape of RendezvousHash",
+        "call sites (Sites.lean): hand-written model of the per-key loop of syncUserCollections (destination = owner of the bytes before the first `/`), of syncShards (owner of the last path segment) and of a request (served by the owner or failing); tied by T3 on real nodes, not translated. Observation of `who served`: the node database / shard directory that changed or the planted record returned; net/rpc + loopback TCP deliver a call to the named address or fail",
+        "user ids contain no `/` (httpapi/middleware/appheaders.go rejects them) - hypothesis `delim not in u` of the sync theorems",
     ],
     "assumptions": [
         "NoTies: different server names of one list never get the same 64-bit score for the key (duplicates of one name are allowed); never observed, cases with a tie would be counted in routing_cases_with_tie and left unjudged",
@@ -39,18 +51,22 @@ SPEC = {
 
 
 def search(ctx):
-    """A tie or obligation broke without an oracle failure in the standard run: run the real function
-    on more seeds and larger inputs and look for a property violation."""
+    """A tie or obligation broke without an oracle failure in the standard run: run the real code on more
+    seeds and larger inputs - more random routing cases AND many more clusters (adversarial user-id
+    families through the real Sync, requests with the first ranked server down) - and look for a
+    property violation."""
+    import re
     r = ctx["runner"]
     for extra in range(1, 7):
         d = os.path.join(ctx["rundir"], f"search{extra}")
         os.makedirs(d, exist_ok=True)
-        rc, out, _ = r.sh([ctx["hbin"], "-seed", str(ctx["seed"] * 1000 + extra), "-out", d, "-n", "3000", "-sharekeys", "20000"], env=r.GOENV, timeout=600)
+        rc, out, _ = r.sh([ctx["hbin"], "-seed", str(ctx["seed"] * 1000 + extra), "-out", d, "-n", "3000", "-sharekeys", "20000",
+                           "-syncscen", "120", "-shsyncscen", "30", "-reqscen", "400"], env=r.GOENV, timeout=1200)
         p = os.path.join(d, "stats.json")
         if rc == 0 and os.path.exists(p):
             st = json.load(open(p))
             for f in st.get("oracle_failures", []):
-                if not any(k.get("status") == "open" and __import__("re").fullmatch(k["signature"], f["signature"]) for k in ctx.get("known", [])):
+                if not any(k.get("status") == "open" and re.fullmatch(k["signature"], f["signature"]) for k in ctx.get("known", [])):
                     shutil.rmtree(d, ignore_errors=True)
                     return f
         shutil.rmtree(d, ignore_errors=True)
